@@ -850,3 +850,7 @@ impl RestorePlan {
             .collect()
     }
 }
+
+#[cfg(kani)]
+#[path = "/verif/harness/commands_restore.rs"]
+pub(crate) mod verif_harness;
